@@ -7,6 +7,7 @@
     servers, instances, cycles; any dimension. *)
 From Coq Require Import ZArith QArith List Bool.
 From TM Require Import Sched.Vec Sched.Types Sched.Tree Sched.Cycle Sched.Events Sched.MapsP Sched.Steps Sched.InvAcct.
+From TM Require Import Sched.TurnP Sched.Reach Sched.ReloadP.
 From TM Require Import Base.ShapeCanon Master.SrvState Master.SrvStateP.
 Import ListNotations.
 Open Scope Z_scope.
@@ -79,6 +80,39 @@ Proof. vm_compute. reflexivity. Qed.
 Theorem C01_reload_keeps_only_identical : forall old new, same_decl old new = true -> old = new.
 Proof. exact reload_keeps_only_identical. Qed.
 Print Assumptions C01_reload_keeps_only_identical.
+
+(** Loader level: a server that is NOT identical to its new declaration is reloaded - Loader.remove_server
+    (Server.remove_all, then parent.remove_node), Loader.load_server, Loader.restore_placement(restore_identity=False)
+    for the placements recorded under it - and the accounting invariant (with every other invariant of a reachable
+    state) holds afterwards, whatever the new capacity is and whichever of the recorded instances still fit: the
+    sequence is a run of operations of the alphabet (Sched/ReloadP.v [reload_ops]) whose side conditions follow from
+    the call site (vectors of the cell's dimension; the recorded placements are those the model holds on that server) *)
+Theorem C01_reload_server : forall c name parent cap label traits vu vb ex xs,
+  reachable c -> get_srv name (c_servers c) <> None ->
+  length cap = c_dim c -> nonneg cap -> NoDup xs ->
+  (forall x a, In x xs -> app_of c x = Some a -> a_server a = Some name) ->
+  let c' := run c (reload_ops name parent cap label traits vu vb ex xs) in
+  reachable c' /\ Acct c'.
+Proof.
+  intros c name parent cap label traits vu vb ex xs HR Hex Hl Hn Hnd Hrec c'.
+  assert (W : wf_ops_all c (reload_ops name parent cap label traits vu vb ex xs))
+    by (apply reload_wf; try assumption; apply reachable_Good; exact HR).
+  assert (R' : reachable c') by (apply reachable_run; assumption).
+  split; [exact R'|]. apply (proj1 (reachable_Good _ R')).
+Qed.
+Print Assumptions C01_reload_server.
+
+(** non-vacuity: the server is declared again with a smaller capacity; of its two instances one fits again *)
+Example C01_reload_nonvacuous :
+  let c := run (init_cell 3 2000 1)
+             [ OAddBucket 2001 3 2000; OAddServer 1000 2001 [100;100;100] 4000 0 0;
+               OAddApp 4000 [] (ex_a 1 1 1 [40;40;40]); OAddApp 4000 [] (ex_a 2 1 2 [40;40;40]); OSchedule [] ] in
+  let ops := reload_ops 1000 2001 [50;50;50] 4000 0 0 (fun _ => false) (fun _ => 0) [1; 2] in
+  map (fun a => (a_name a, a_server a)) (c_apps c) = [(1, Some 1000); (2, Some 1000)] /\
+  map (fun a => (a_name a, a_server a)) (c_apps (run c ops)) = [(1, Some 1000); (2, None)] /\
+  map (fun s => (s_name s, s_free s)) (c_servers (run c ops)) = [(1000, [10;10;10])] /\
+  wf_ops_allb c ops = true.
+Proof. vm_compute. repeat split. Qed.
 
 (** the functions of treadmill/scheduler/__init__.py these theorems were proved about still have the statement
     skeleton the model was written from (re-extracted from the Python AST on every run, harness/tables_shape.py;
